@@ -125,7 +125,8 @@ structure RecLayout where
   refs : List RefLayout := []
   extras : List (List Nat) := []
   extraCuts : List Nat := []     -- how many extra blocks go before DEFINITION, ACCESSION, VERSION, KEYWORDS,
-                                 -- SOURCE, the first REFERENCE (the remaining ones follow the references)
+                                 -- SOURCE, the first REFERENCE; [6]: how many of the remaining ones stand after the feature table
+                                 -- (the others follow the references)
   omitDefinition : Bool := false -- an empty DEFINITION / ACCESSION / VERSION / KEYWORDS / SOURCE+ORGANISM block is
   omitAccession : Bool := false  -- left out altogether instead of being written as the bare keyword
   omitVersion : Bool := false
@@ -341,9 +342,18 @@ the blocks keep the order of the record -/
 def extraSlot (r : GbRec) (ℓ : RecLayout) (k : Nat) : List Str :=
   extrasLines ((r.extras.drop (off ℓ.extraCuts k)).take (ℓ.extraCuts.getD k 0)) (ℓ.extras.drop (off ℓ.extraCuts k))
 
-/-- the extra keyword blocks after the references: all that are left -/
+/-- how many of the remaining extra keyword blocks follow the references; the last `extraCuts[6]` of
+them (none by default) stand after the feature table, where NCBI writes `CONTIG` -/
+def afterRefsCount (r : GbRec) (ℓ : RecLayout) : Nat :=
+  (r.extras.length - off ℓ.extraCuts 6) - min (ℓ.extraCuts.getD 6 0) (r.extras.length - off ℓ.extraCuts 6)
+
+/-- the extra keyword blocks after the references -/
 def extraRest (r : GbRec) (ℓ : RecLayout) : List Str :=
-  extrasLines (r.extras.drop (off ℓ.extraCuts 6)) (ℓ.extras.drop (off ℓ.extraCuts 6))
+  extrasLines ((r.extras.drop (off ℓ.extraCuts 6)).take (afterRefsCount r ℓ)) (ℓ.extras.drop (off ℓ.extraCuts 6))
+
+/-- the extra keyword blocks between the feature table and ORIGIN: all that are left -/
+def extraAfterFeat (r : GbRec) (ℓ : RecLayout) : List Str :=
+  extrasLines (r.extras.drop (off ℓ.extraCuts 6 + afterRefsCount r ℓ)) (ℓ.extras.drop (off ℓ.extraCuts 6 + afterRefsCount r ℓ))
 
 /-- the lines of one record, `//` included -/
 def layout (r : GbRec) (ℓ : RecLayout) : List Str :=
@@ -363,6 +373,7 @@ def layout (r : GbRec) (ℓ : RecLayout) : List Str :=
   ++ extraRest r ℓ
   ++ [featuresHeader]
   ++ featsLines r.features ℓ.feats
+  ++ extraAfterFeat r ℓ
   ++ [if ℓ.originTrail then c!"ORIGIN      " else c!"ORIGIN"]
   ++ originLines r.seq ℓ.blockLen ℓ.perLine
   ++ [c!"//"]
@@ -400,6 +411,15 @@ def toSequence (r : GbRec) : Genbank.Sequence :=
             references := toRefs 0 r.refs, other := r.extras }
     seq := r.seq
     features := r.features.map toFeature }
+
+/-- what a `map[string]string` keeps of a feature's qualifiers: of several qualifiers with one key the
+LAST value survives, in the place of the first (known finding C01-repeated-qualifier-key).  With pairwise
+distinct keys this is `toFeature`. -/
+def toFeatureM (f : RFeature) : Genbank.Feature :=
+  { type := f.key, gbkLoc := f.loc, attrs := f.quals.foldl (fun m q => Genbank.mapInsert m q.1 q.2) [] }
+
+/-- `toSequence` with `toFeatureM` for the features -/
+def toSequenceM (r : GbRec) : Genbank.Sequence := { toSequence r with features := r.features.map toFeatureM }
 
 /-! ### the domain -/
 
